@@ -574,8 +574,98 @@ class Model(object):
         return self.fold(ia.value, ia.cls.module)
 
     def fold(self, node, m, env=None):
+        try:
+            return self._fold(node, m, env)
+        except NotConst as e:
+            # a pure expression over literals and constants in a form the structural folder does not know (comprehension,
+            # lambda sort key, re.escape ...): evaluate it as a *constant expression* -- only whitelisted node kinds, builtins
+            # and string/dict methods, names bound to already folded constants; nothing of the repository's code is called
+            try:
+                return self._const_eval(node, m, env or {})
+            except NotConst:
+                raise e
+
+    _PURE_BUILTINS = {"sorted": sorted, "len": len, "list": list, "tuple": tuple, "set": set, "dict": dict, "str": str, "int": int,
+                      "min": min, "max": max, "sum": sum, "any": any, "all": all, "zip": zip, "enumerate": enumerate, "reversed": reversed,
+                      "frozenset": frozenset, "bool": bool, "abs": abs, "repr": repr}
+    _PURE_METHODS = {"join", "format", "items", "keys", "values", "lower", "upper", "strip", "lstrip", "rstrip", "split", "rsplit",
+                     "startswith", "endswith", "replace", "get", "count", "index", "title", "capitalize", "union", "intersection",
+                     "difference", "copy"}
+
+    def _const_eval(self, node, m, env):
+        import re as _re
+        bound = set()
+        free = set()
+        allowed = (ast.Constant, ast.List, ast.Tuple, ast.Set, ast.Dict, ast.Name, ast.BinOp, ast.UnaryOp, ast.Compare, ast.BoolOp,
+                   ast.IfExp, ast.ListComp, ast.SetComp, ast.DictComp, ast.GeneratorExp, ast.comprehension, ast.Lambda, ast.arguments,
+                   ast.arg, ast.Call, ast.Subscript, ast.Slice, ast.Starred, ast.keyword, ast.Attribute, ast.Load, ast.Store,
+                   ast.operator, ast.unaryop, ast.cmpop, ast.boolop, ast.expr_context)
+        for n in ast.walk(node):
+            if not isinstance(n, allowed):
+                raise NotConst("not a constant expression: %s" % type(n).__name__)
+            if isinstance(n, ast.Name) and isinstance(n.ctx, ast.Store):
+                bound.add(n.id)
+            if isinstance(n, ast.arg):
+                bound.add(n.arg)
+            if isinstance(n, ast.Lambda) and (n.args.vararg or n.args.kwarg or n.args.defaults or n.args.kw_defaults):
+                raise NotConst("lambda with defaults")
+        ns = {}
+        for n in ast.walk(node):
+            if isinstance(n, ast.Call):
+                d = dotted(n.func)
+                if isinstance(n.func, ast.Name):
+                    if n.func.id not in self._PURE_BUILTINS and n.func.id not in bound:
+                        raise NotConst("call of %s in a constant expression" % n.func.id)
+                elif d in ("re.escape", "re.compile"):
+                    pass
+                elif isinstance(n.func, ast.Attribute):
+                    if n.func.attr not in self._PURE_METHODS:
+                        raise NotConst("method %s in a constant expression" % n.func.attr)
+                else:
+                    raise NotConst("call in a constant expression")
+            elif isinstance(n, ast.Attribute):
+                pass
+        # attribute nodes are only allowed as the function of a whitelisted call
+        funcs = set(id(n.func) for n in ast.walk(node) if isinstance(n, ast.Call))
+        for n in ast.walk(node):
+            if isinstance(n, ast.Attribute) and id(n) not in funcs:
+                d = dotted(n)
+                if d not in ("re.DOTALL", "re.S", "re.UNICODE", "re.U"):
+                    raise NotConst("attribute access in a constant expression")
+            if isinstance(n, ast.Name) and isinstance(n.ctx, ast.Load) and n.id not in bound and n.id not in self._PURE_BUILTINS \
+                    and n.id not in ("True", "False", "None", "re"):
+                free.add(n.id)
+        for name in free:
+            if name in env:
+                ns[name] = env[name]
+            else:
+                ns[name] = self._fold(ast.Name(id=name, ctx=ast.Load()), m, env)
+
+        class _Re(object):
+            escape = staticmethod(_re.escape)
+            DOTALL = S = "s"
+            UNICODE = U = ""
+
+            @staticmethod
+            def compile(pat, flags=""):
+                if not isinstance(pat, str):
+                    raise NotConst("re.compile of non-string")
+                return RegexConst(("(?s)" + pat) if flags == "s" else pat, 0)
+        ns["re"] = _Re
+        ns.update(self._PURE_BUILTINS)
+        try:
+            code = compile(ast.Expression(body=node), "<constant>", "eval")
+            g = dict(ns)
+            g["__builtins__"] = {}
+            return eval(code, g)
+        except NotConst:
+            raise
+        except Exception as e:
+            raise NotConst("constant expression does not evaluate: %s" % e)
+
+    def _fold(self, node, m, env=None):
         env = env or {}
-        ev = self.fold
+        ev = self._fold
 
         if isinstance(node, ast.Constant):
             return node.value
